@@ -1,7 +1,7 @@
 #!/bin/sh
 # tools/runall.sh [tier] [seed] — runs every claimed check sequentially, prints one line each
 cd "$(dirname "$0")/.."
-tier=${1:-quick}; seed=${2:-1}
+mkdir -p .build; tier=${1:-quick}; seed=${2:-1}
 for id in $(cat claimed.txt | sort); do
   t0=$(date +%s)
   VERIF_SEED=$seed ./check $id --tier $tier > .build/runall-$id.log 2>&1; rc=$?
